@@ -18,7 +18,8 @@ fn gen_mn(rng: &mut Rng, big: bool) -> mackay_neal::Config {
     // wr around the value that makes the construction feasible, sometimes tight, sometimes roomy
     let need = (ncols * wc).div_ceil(nrows);
     let wr = match rng.below(4) { 0 => need, 1 => need + 1, 2 => need + 3, _ => need.max(1) + rng.below(3) };
-    let min_girth = match rng.below(4) { 0 => None, 1 => Some(4), 2 => Some(6), _ => Some(8) };
+    // odd requests too: "girth at least 5" means no 4-cycle, "at least 7" no 6-cycle (the search bound is min_girth - 1)
+    let min_girth = match rng.below(7) { 0 => None, 1 => Some(4), 2 => Some(6), 3 => Some(5), 4 => Some(7), 5 => Some(3), _ => Some(8) };
     mackay_neal::Config {
         nrows, ncols, wr: wr.max(1), wc,
         backtrack_cols: rng.below(4), backtrack_trials: rng.below(20),
@@ -46,7 +47,7 @@ pub fn run(ctx: &mut Ctx, _replay: Option<&[String]>) {
         };
         let t1 = if out.starts_with("ok") { "mn-ok" } else { "mn-err" };
         let t2 = if cfg.fill_policy == FillPolicy::Uniform { "policy-uniform" } else { "policy-random" };
-        let t3 = match cfg.min_girth { None => "girth-none", Some(4) => "girth-4", Some(6) => "girth-6", _ => "girth-8" };
+        let t3 = match cfg.min_girth { None => "girth-none", Some(4) => "girth-4", Some(6) => "girth-6", Some(8) => "girth-8", _ => "girth-odd-request" };
         let t4 = if cfg.backtrack_cols > 0 && cfg.backtrack_trials > 0 { "backtracking-on" } else { "backtracking-off" };
         ctx.emit(&format!("c16 mn {} {}", mn_cfg_str(&cfg), seed), &out, out.starts_with("ok"), &[t1, t2, t3, t4]);
     }
